@@ -87,7 +87,9 @@ func (s *SemMap) release(key interface{}, w *Weighted, n int) {
 	s.mux.Lock()
 	defer s.mux.Unlock()
 	var empty = w.release(n)
-	if empty {
+	// free the entry only when nobody waits and nobody holds any more:
+	// other holders (readers, or a waiter admitted just now) still need it.
+	if empty && w.cur == 0 {
 		delete(s.m, key)
 		return
 	}
